@@ -8,6 +8,8 @@ by a jump to the call's target).  Functions with several call sites (shared help
 without such splits `expand` is the identity.
 """
 import copy
+import json
+import os
 import re
 
 from .ir import Fn
@@ -354,5 +356,155 @@ def desugar(prog, fn, max_sites=24):
         cur = Fn(fn.name, fj, crate)
         done += 1
     if done:
+        if os.environ.get("VERIF_NO_CAPTURE_FORWARD") != "1" and forward_captures(cur.j):
+            cur = Fn(fn.name, cur.j, crate)
         cur.desugared = done
     return cur
+
+
+def forward_captures(fj):
+    """In closure bodies that were folded into their parent (blocks tagged `_from`), accesses through a captured reference are
+    rewritten to the captured place itself: `t = &mut P; c = closure{.., t, ..}; e = move c | &mut c; x = (e).k | (*e).k; *x = v`
+    becomes `P = v`.  Exact: the capture holds the only live reference to P between its creation and the call (borrow check), all
+    locals involved are assigned once.  Modifies fj in place; returns the number of rewritten places."""
+    ndef = {}
+    refs, alias, clos, envref = {}, {}, {}, {}
+
+    def bump(l):
+        ndef[l] = ndef.get(l, 0) + 1
+    for blk in fj["blocks"]:
+        for st in blk["s"]:
+            if isinstance(st, dict) and "a" in st and not st["a"].get("p"):
+                bump(st["a"]["l"])
+        c = blk["t"].get("call") if isinstance(blk["t"], dict) else None
+        if c and c.get("dest") and not c["dest"].get("p"):
+            bump(c["dest"]["l"])
+    for blk in fj["blocks"]:
+        for st in blk["s"]:
+            if not (isinstance(st, dict) and "a" in st and not st["a"].get("p")):
+                continue
+            l, rv = st["a"]["l"], st.get("rv") or {}
+            if ndef.get(l) != 1:
+                continue
+            if "ref" in rv and isinstance(rv["ref"], dict):
+                refs[l] = rv["ref"]
+            elif "use" in rv:
+                op = rv["use"].get("mv") or rv["use"].get("cp")
+                if op is not None:
+                    alias[l] = op
+            elif rv.get("agg") == "closure":
+                clos[l] = [(f.get("mv") or f.get("cp")) for f in rv.get("fields", [])]
+
+    def closure_of(l, depth=0):
+        """-> (closure local, extra 'deref' needed?) for an environment local"""
+        if depth > 4 or ndef.get(l) != 1:
+            return None
+        if l in clos:
+            return l
+        if l in alias and not alias[l].get("p"):
+            return closure_of(alias[l]["l"], depth + 1)
+        if l in refs and not refs[l].get("p"):
+            return closure_of(refs[l]["l"], depth + 1)
+        return None
+
+    def captured_place(x, depth=0):
+        """place P when local x holds `&(mut) P` captured by a folded closure, else None"""
+        if depth > 4 or ndef.get(x) != 1:
+            return None
+        if x in refs and closure_of(x) is None:
+            return refs[x]
+        op = alias.get(x)
+        if op is None:
+            return None
+        pr = [q for q in op.get("p", [])]
+        if not pr:
+            return captured_place(op["l"], depth + 1)
+        fld = [q for q in pr if q != "deref"]
+        if len(fld) != 1 or not isinstance(fld[0], dict) or "f" not in fld[0]:
+            return None
+        c = closure_of(op["l"])
+        if c is None:
+            return None
+        k = fld[0].get("i")
+        if k is None:
+            try:
+                k = int(fld[0]["f"])
+            except (TypeError, ValueError):
+                return None
+        if k >= len(clos[c]) or clos[c][k] is None or clos[c][k].get("p"):
+            return None
+        return captured_place(clos[c][k]["l"], depth + 1)
+
+    n = 0
+    used = set()   # capture-reference locals whose accesses were forwarded
+
+    def origin(x, depth=0):
+        """the local `t` of `t = &(mut) P` behind a captured-reference local x"""
+        if depth > 4:
+            return None
+        if x in refs and closure_of(x) is None:
+            return x
+        op = alias.get(x)
+        if op is None:
+            return None
+        if not op.get("p"):
+            return origin(op["l"], depth + 1)
+        fld = [q for q in op["p"] if q != "deref"]
+        c = closure_of(op["l"])
+        if c is None or len(fld) != 1 or not isinstance(fld[0], dict):
+            return None
+        k = fld[0].get("i")
+        if k is None or k >= len(clos[c]) or clos[c][k] is None:
+            return None
+        return origin(clos[c][k]["l"], depth + 1)
+
+    def rewrite(pl):
+        nonlocal n
+        if not isinstance(pl, dict) or "l" not in pl:
+            return
+        pr = pl.get("p") or []
+        if pr and pr[0] == "deref":
+            P = captured_place(pl["l"])
+            if P is not None:
+                o = origin(pl["l"])
+                if o is not None:
+                    used.add(o)
+                pl["l"] = P["l"]
+                pl["p"] = copy.deepcopy(P.get("p", [])) + pr[1:]
+                n += 1
+
+    def walk(j):
+        if isinstance(j, dict):
+            if "l" in j and isinstance(j.get("l"), int):
+                rewrite(j)
+            for v in j.values():
+                walk(v)
+        elif isinstance(j, list):
+            for x in j:
+                walk(x)
+    for blk in fj["blocks"]:
+        if blk.get("_from") and "{closure#" in str(blk.get("_from")):
+            walk(blk["s"])
+            walk(blk["t"])
+    # the capture `t = &mut P` of a folded closure whose accesses now name P directly is no longer a way to reach P: it only feeds the
+    # (dead) closure value.  Tag it so that who-writes queries do not report it as an untracked mutable borrow.
+    if used:
+        feeds = {}
+        for blk in fj["blocks"]:
+            for st in blk["s"]:
+                if isinstance(st, dict) and "a" in st:
+                    js = json.dumps(st.get("rv"))
+                    for t in used:
+                        if ('"l": %d}' % t) in js or ('"l": %d,' % t) in js:
+                            feeds.setdefault(t, []).append(st)
+            tj = json.dumps(blk["t"])
+            for t in used:
+                if ('"l": %d}' % t) in tj or ('"l": %d,' % t) in tj:
+                    feeds.setdefault(t, []).append(None)
+        for blk in fj["blocks"]:
+            for st in blk["s"]:
+                if isinstance(st, dict) and "a" in st and not st["a"].get("p") and st["a"]["l"] in used and "ref" in (st.get("rv") or {}):
+                    fs_ = feeds.get(st["a"]["l"], [])
+                    if fs_ and all(x is not None and (x.get("rv") or {}).get("agg") == "closure" for x in fs_):
+                        st["dead_capture"] = True
+    return n
